@@ -394,7 +394,7 @@ def unroll_literal_loops(fn_node: ast.AST) -> ast.AST:
                 it = lp.iter
                 if isinstance(it, ast.Name) and it.id in once:
                     it = once[it.id]
-                if not isinstance(it, ast.Tuple) or not it.elts or len(it.elts) > 12:
+                if not (isinstance(it, ast.Tuple) or (isinstance(it, ast.List) and it is lp.iter)) or not it.elts or len(it.elts) > 12:
                     continue
                 tnames = [lp.target.id] if isinstance(lp.target, ast.Name) else \
                     [e.id for e in lp.target.elts] if isinstance(lp.target, ast.Tuple) and all(isinstance(e, ast.Name) for e in lp.target.elts) else None
